@@ -5,8 +5,8 @@ import vfw
 H = 'c10/h_c10.cpp'
 KINDS = {1: 'variables', 2: 'resets', 3: 'child components', 4: 'model units', 5: 'unit children'}
 # attributes that can be symbolic per kind (see the harness); measured-feasible combinations only
-ATTRS = {1: [1, 2, 3, 4, 5], 2: [1, 2, 5, 6, 7, 8], 3: [1, 2, 3, 4, 5], 4: [1, 2, 3, 4, 5, 6, 7, 8], 5: [1, 2, 3, 4, 5]}
-ATTR_NAMES = {1: {1: 'name', 2: 'id', 3: 'initial value', 4: 'units', 5: 'interface'},
+ATTRS = {1: [1, 2, 3, 4, 5, 6], 2: [1, 2, 3, 4, 5, 6, 7, 8], 3: [1, 2, 3, 4, 5], 4: [1, 2, 3, 4, 5, 6, 7, 8], 5: [1, 2, 3, 4, 5]}
+ATTR_NAMES = {1: {1: 'name', 2: 'id', 3: 'initial value', 4: 'units', 5: 'interface', 6: 'id of the units object', 7: 'unit child of the units object'},
               2: {1: 'id', 2: 'order', 3: 'variable', 4: 'test variable', 5: 'test value', 6: 'reset value', 7: 'test value id', 8: 'reset value id'},
               3: {1: 'name', 2: 'id', 3: 'encapsulation id', 4: 'math', 5: 'import reference'},
               4: {1: 'unit reference', 2: 'unit prefix', 3: 'unit exponent', 4: 'unit multiplier', 5: 'unit id', 6: 'units name', 7: 'units id', 8: 'units import reference'},
@@ -35,8 +35,10 @@ def run(fw):
         for (na, nb) in shapes(kind, fw.tier):
             n = max(na, nb)
             for attr in ATTRS[kind]:
-                if kind == 1 and attr in (3, 4, 5) and (na == 2 or nb == 2) and fw.tier == 'quick':
+                if kind == 1 and attr in (3, 4, 5, 6, 7) and (na == 2 or nb == 2) and fw.tier == 'quick':
                     continue
+                if kind == 2 and attr in (3, 4) and (na, nb) != (1, 1):
+                    continue   # which variable a reset refers to: decided on the (1,1) shape only (200-700 s per query)
                 jobs.append((kind, na, nb, attr))
     # transitivity on triples: one child per entity, every attribute kind
     tjobs = [(kind, 1, 1, attr) for kind in KINDS for attr in ATTRS[kind]]
@@ -56,8 +58,8 @@ def run(fw):
         lab = 'h_equals[%s %d vs %d%s, symbolic %s]' % (KINDS[kind], na, nb, ' vs %d (transitivity)' % nb if trans else '', ATTR_NAMES[kind][attr])
         # shapes that only the thorough tier adds sit at the edge of feasibility (two children on a side whose matching loop
         # erases at a symbolic index): no verdict there is recorded as inconclusive, not as a failure of the check
-        edge = (na, nb) not in shapes(kind, 'quick') or (kind == 1 and attr in (3, 4, 5) and (na == 2 or nb == 2))
-        r = fw.cbmc(m, 'h_equals', unwind=6, unwindset=us, timeout=600 if not edge else 900, label=lab, symbolic=ATTR_NAMES[kind][attr] + ' of every child')
+        edge = (na, nb) not in shapes(kind, 'quick') or (kind == 1 and attr in (3, 4, 5, 6, 7) and (na == 2 or nb == 2)) or (kind == 2 and attr in (3, 4))
+        r = fw.cbmc(m, 'h_equals', unwind=6, unwindset=us, timeout=(600 if not edge else 900) if not (kind == 2 and attr in (3, 4)) else 1800, label=lab, symbolic=ATTR_NAMES[kind][attr] + ' of every child')
         if r['status'] != 'SUCCESS':
             fw.log(lab, r['status'], [(f['msg'], f['inputs']) for f in r['failed']][:3])
         fw.handle(r, H, defs, best_effort=edge)
